@@ -1030,6 +1030,19 @@ def replay_file(prop, path, items):
 
     with open(path) as f:
         data = json.load(f)
+    cex = data.get("cex") or {}
+    if cex.get("mode") == "pinned":
+        from .props import pinned_probe
+
+        enga.init()
+        bad = [r for r in pinned_probe.run() + pinned_probe.run_adjoint() if r["key"] == cex.get("key") and r["status"] == "violation"]
+        for r in bad:
+            print("replay %s: %s" % (r["key"], r["detail"]))
+        if bad:
+            print("VIOLATION property=%s replay=%s" % (prop, path))
+            return 1
+        print("does not reproduce on the current tree")
+        return 0
     key = data.get("key")
     cfg = None
     for c in items:
@@ -1674,7 +1687,12 @@ def check_flatten(case, tier="quick"):
             flat, unflatten = flatten(v)
             back = unflatten(flat)
             n = len(leaves(flat))
-            w = sym_array("w", (n,))
+            if is_complex(flat):
+                # mixed real / complex leaves flatten to a complex vector; unflatten is the inverse on the IMAGE of flatten
+                # (real positions carry no imaginary part), so w ranges over flattened containers of the same structure
+                w = flatten(cfg.make_args(suffix="b")[0])[0]
+            else:
+                w = sym_array("w", (n,))
             fw = flatten(unflatten(w))[0]
             g_struct = autograd.grad(lambda z: f(anp, z))(v)
             lhs = flatten(g_struct)[0]
@@ -1707,12 +1725,13 @@ def check_flatten(case, tier="quick"):
                 out.status, out.detail = "violation", "%s fails structurally: %s vs %s" % (nm, structure(a), structure(b))
                 out.cex = {"env": {}, "mode": "flatten"}
                 break
-            ca, cb = coeffs(a), coeffs(b)
-            if len(ca) != len(cb):
-                out.status, out.detail = "violation", "%s fails: sizes %d vs %d" % (nm, len(ca), len(cb))
+            try:
+                eqs_ = leaf_eqs(a, 0, b, 0)  # per leaf (re, im): a real leaf equals a complex one with zero imaginary part
+            except ValueError as e_:
+                out.status, out.detail = "violation", "%s fails: %s" % (nm, e_)
                 out.cex = {"env": {}, "mode": "flatten"}
                 break
-            v_, model = prove_eqs(p, list(zip(ca, cb)), [], out, opts)
+            v_, model = prove_eqs(p, eqs_, [], out, opts)
             if v_ == "unknown":
                 out.status, out.detail = "inconclusive", "solver unknown on %s" % nm
                 break
@@ -2482,7 +2501,14 @@ def check_vspace(case, tier="quick"):
     fails = []
     for p in paths:
         if p.err is not None:
-            out.status, out.detail = "error", "harness: body raised %s" % exc_sig(p.err)
+            # a vector-space operation raised on symbolic (object-dtype) leaves: the engine cannot run this code.  The
+            # float64 axioms decide whether that is a violation (they fail too) or only a limit of the model.
+            ff = float_fails()
+            if ff:
+                out.status, out.detail = "violation", "vector-space operations raise / fail on float64 leaves: " + ", ".join(ff[:4])
+                out.cex = {"env": {}, "mode": "vspace"}
+            else:
+                out.status, out.detail = "inconclusive", "the symbolic run raised %s; the float64 axioms hold" % exc_sig(p.err)
             out.extra["trace"] = repr(p.err)
             break
         res = p.res
@@ -2638,6 +2664,33 @@ def vspace_pairs_check():
                 fails.append("mut_add(None, x) shares memory with x for %s" % name)
             if isinstance(u, onp.ndarray) and isinstance(v, onp.ndarray) and (u.dtype != v.dtype or u.shape != v.shape):
                 fails.append("mut_add(None, x) changed dtype/shape for %s: %s%s vs %s%s" % (name, u.dtype, u.shape, v.dtype, v.shape))
+    # the operations work IN the space's dtype: extended / reduced precision leaves keep their range, precision and dtype
+    # (only where the platform's long double is wider than double)
+    with warnings.catch_warnings():
+        warnings.simplefilter("ignore")
+        if onp.finfo(onp.longdouble).max > onp.finfo(onp.float64).max:
+            tiny = onp.array([1e-200, -2e-200], dtype=onp.longdouble)
+            huge = onp.array([1e200, 3e200], dtype=onp.longdouble)
+            for lab, mk in (("longdouble (2,)", lambda a: a), ("list [longdouble (2,), float]", lambda a: [a, 1.5]), ("dict {a: longdouble (2,)}", lambda a: {"a": a})):
+                for nm, a in (("tiny", tiny), ("huge", huge)):
+                    n += 1
+                    x = mk(a)
+                    extra = 2.25 if isinstance(x, list) else 0.0
+                    vs = vspace(x)
+                    try:
+                        ip = vs.inner_prod(x, x)
+                        want = onp.sum(a * a) + onp.longdouble(extra)
+                        if not (onp.isfinite(ip) and ip > 0 and abs(ip - want) <= 1e-17 * abs(want)):
+                            fails.append("inner_prod on %s (%s entries): %r, long double arithmetic gives %r" % (lab, nm, ip, want))
+                        s2 = vs.scalar_mul(x, 0.5)
+                        if [getattr(l_, "dtype", None) for l_ in leaves_raw(s2)] != [getattr(l_, "dtype", None) for l_ in leaves_raw(vs.add(x, x))]:
+                            fails.append("scalar_mul / add disagree on leaf dtypes for %s" % lab)
+                    except Exception as e:
+                        fails.append("vector-space operation raised on %s: %s" % (lab, exc_sig(e)))
+        f16 = onp.array([1.0, 2.0], dtype=onp.float16)
+        n += 1
+        if vspace(f16).zeros().dtype != onp.float16 or onp.asarray(vspace(f16).add(f16, f16)).dtype != onp.float16:
+            fails.append("float16 space: zeros / add leave the dtype")
     return n, fails
 
 
@@ -2694,6 +2747,8 @@ def zero_cases(tier):
     c.append(("dict argument, piecewise constant", lambda np, d: np.floor(d["a"]), {"a": R(2), "b": R(1)}))
     c.append(("value-dependent branch to constants", lambda np, x: 1.0 if x[0] > x[1] else 2.0, R(2)))
     c.append(("zeros_like / ones_like", lambda np, x: np.zeros_like(x) + np.ones_like(x), R(2)))
+    c.append(("only the constant border of a padded array is read", lambda np, x: np.pad(x, 1, "constant", constant_values=7.0)[onp.array([0, -1])] * 3.0, R(2)))
+    c.append(("full_like / linspace endpoints built from shapes only", lambda np, x: np.sum(np.full(np.shape(x), 2.5)) + np.sum(np.linspace(0.0, 1.0, np.size(x))), R(3)))
     # an inner derivative whose value depends on the OUTER argument only through two-argument non-differentiable functions
     # (operands of different nesting levels in one call)
     def _inner(np, body, at):
